@@ -35,6 +35,7 @@ type ctxExtra struct {
 	strict      bool
 	writes      map[string]bool
 	lockedOnce  map[string]bool
+	freshList   []string
 	loopIndex   map[ast.Node]int
 	curLoop     ast.Node
 }
@@ -174,7 +175,11 @@ func (e *Engine) verifyFunc(fi *FuncInfo) *FuncResult {
 			ref := pre.eval(ex, entrySnap)
 			ss := pre.structSortOf(ref.Ty)
 			for _, f := range c.structFields(ss, field) {
-				c.frameRefs[ss+"."+f] = append(c.frameRefs[ss+"."+f], ref.T)
+				k := ss + "." + f
+				if pre.ghostFieldType(ref.Ty, f) != nil {
+					k = ss + ".$" + f
+				}
+				c.frameRefs[k] = append(c.frameRefs[k], ref.T)
 			}
 		}
 	}
@@ -343,7 +348,9 @@ func (env *Env) lockOp(recvExpr ast.Expr, op string, st *State, pos token.Pos) {
 	ie := func(s *State) *Env {
 		e2 := &Env{c: c, fn: env.fn, pkg: env.pkg, contract: true, bound: map[string]Val{"self": base}, old: c.entry, tsubst: env.tsubst, noSafety: true}
 		if ts != nil {
-			// bind the receiver name used in the type spec: `self`
+			// lock invariants are written in the package that declares the type
+			e2.fn = nil
+			e2.pkg = &pkgRef{info: ts.Pkg.TypesInfo, types: ts.Pkg.Types, files: ts.Pkg.Syntax}
 		}
 		return e2
 	}
